@@ -134,6 +134,7 @@ type muxWorld struct {
 	leftover  muxVerdict
 	closedOK  map[string]map[int]bool // Stream.Close returned nil at e for stream s
 	closeAny  map[string]map[int]bool // Stream.Close was called at e for stream s
+	closeWon  map[string]map[int]bool // ... and the stream was still open when it was called
 	abnormal  bool                    // a session close, fault or timer step occurred
 }
 
@@ -256,6 +257,7 @@ func muxNewWorld(conc muxConc) (*muxWorld, error) {
 	w.poolSize = conc.NC - conc.Late
 	w.closedOK = map[string]map[int]bool{"c": {}, "s": {}}
 	w.closeAny = map[string]map[int]bool{"c": {}, "s": {}}
+	w.closeWon = map[string]map[int]bool{"c": {}, "s": {}}
 	w.gateCh = map[string]chan struct{}{}
 	w.gateOn = conc.Gates
 	gated := map[string]bool{}
@@ -563,6 +565,35 @@ func (w *muxWorld) judgeAfterDivergence() muxVerdict {
 			}
 		}
 	}
+	for _, e := range []string{"c", "s"} {
+		if vv := w.checkCloseFrames(e); vv.Key != "" {
+			return vv
+		}
+	}
+	return muxVerdict{}
+}
+
+// A Close call that found the stream open on a healthy session (it was the first close of that stream here, no
+// injected send failure) puts a closing frame of that stream on the wire. A Close that lost against the peer's
+// notice ("already closed") rightly sends nothing and is not judged.
+func (w *muxWorld) checkCloseFrames(e string) muxVerdict {
+	if w.wireErr != "" || w.abnormal || w.conc.Singleplex {
+		return muxVerdict{}
+	}
+	for sid, won := range w.closeWon[e] {
+		if !won || w.sendFail[e][sid] {
+			continue
+		}
+		n := 0
+		for _, f := range w.wire[e][uint32(sid)] {
+			if f.Closing == closingStream {
+				n++
+			}
+		}
+		if n == 0 {
+			return muxVerdict{"close-frame-missing", fmt.Sprintf("%s closed stream %d (open until then) on a healthy session but no closing frame of that stream reached the wire", e, sid)}
+		}
+	}
 	return muxVerdict{}
 }
 
@@ -574,20 +605,8 @@ func (w *muxWorld) checkWire() muxVerdict {
 		return muxVerdict{"wire-undecodable", w.wireErr}
 	}
 	for _, e := range []string{"c", "s"} {
-		// a close on a healthy session puts exactly one closing frame of that stream on the wire
-		for sid, called := range w.closeAny[e] {
-			if !called || w.abnormal || w.sendFail[e][sid] || w.conc.Singleplex {
-				continue
-			}
-			n := 0
-			for _, f := range w.wire[e][uint32(sid)] {
-				if f.Closing == closingStream {
-					n++
-				}
-			}
-			if n == 0 {
-				return muxVerdict{"close-frame-missing", fmt.Sprintf("%s closed stream %d on a healthy session but no closing frame of that stream reached the wire", e, sid)}
-			}
+		if vv := w.checkCloseFrames(e); vv.Key != "" {
+			return vv
 		}
 		for sid, frames := range w.wire[e] {
 			if sid == 0xffffffff {
@@ -744,6 +763,9 @@ func (w *muxWorld) step(steps []muxStep, i int) muxVerdict {
 		return w.doWrite(steps, i)
 	case "CloseStream":
 		st := w.strm[ev.E][ev.S]
+		if ev.Ok && !st.isClosed() && !w.sesh[ev.E].IsClosed() {
+			w.closeWon[ev.E][ev.S] = true
+		}
 		call := w.async("close", func(c *muxCall) { c.err = st.Close() })
 		synctest.Wait()
 		if !call.finished() {
